@@ -47,7 +47,9 @@ CLAIMED = {
          "the same connection serial over a shared connection table -- (TagsWellFormed, PrivateKept, NoTornRead, OwnConnections, termination); on the real code one thread per "
          "session runs the per-frame pipeline while shared parser locks and every tag-storage access are scheduling points and a "
          "controller forces TLC-emitted schedules (deterministic, reproducible); each execution's history is checked by TLC "
-         "(ConcurrencyTrace) for linearizability against the tag model and the connection table, plus reply routing, deadlock and exception freedom.",
+         "(ConcurrencyTrace) for linearizability against the tag model and the connection table, plus reply routing, deadlock and exception freedom.  "
+         "Concurrent ROUTED sessions ([UCMM] Route to a second simulator process over one shared route connection): free-running on real sockets over a slow link, and "
+         "forced schedules whose scheduling points include taking / releasing / sending on the shared route connection; histories judged by TLC (RouteTrace).",
          "5/C09", "forced schedules preempt at the instrumented points (parser locks, the middle of every shared-parser run, tag storage accesses, the tag loop of logix.setup); free-running threads (switch interval 1 us, warm and cold start) sample everything else",
          "TLA+ atomic-effect model + TLC interleavings; TLC-emitted schedules forced on real threads; histories checked for linearizability by TLC"),
  "C08": ("fault_enumeration",
